@@ -4,7 +4,8 @@
     * `arrGet`: indexing a package-level array `[n]T` (given as the regenerated list plus the fact that it has `n`
       entries) at an index that is PROVED to be in range — there is no default value, no panic branch;
     * `maskL_lt32 …`: the proofs the translator supplies for indices of the form `0xff & e`;
-    * `slice`: `b[lo:hi]` (the caller's `_pre` says `hi ≤ len b`);
+    * `slice`: `b[lo:hi]` (the caller's `_pre` says `hi ≤ len b`); `spliceLo`: the effect on `x` of a callee writing `x[:k]`;
+    * `Res`: normal return or `panic(msg)`;
     * `beUint32` / `putUint32`: `binary.BigEndian.Uint32` / `PutUint32` as written in encoding/binary:
         Uint32(b)    = uint32(b[3]) | uint32(b[2])<<8 | uint32(b[1])<<16 | uint32(b[0])<<24
         PutUint32(b, v): b[0] = byte(v>>24); b[1] = byte(v>>16); b[2] = byte(v>>8); b[3] = byte(v)
@@ -68,5 +69,15 @@ def beUint32 (b : Bytes) : W32 :=
 /-- `binary.BigEndian.PutUint32(y[off:off+4], v)`, the new contents of `y` -/
 def putUint32 (y : Bytes) (off : Nat) (v : W32) : Bytes :=
   (((y.set off (byteOf (v >>> 24))).set (off + 1) (byteOf (v >>> 16))).set (off + 2) (byteOf (v >>> 8))).set (off + 3) (byteOf v)
+
+/-- result of a Go function that returns normally with a value or panics with a message
+    (`panic("…")` in a guard at the top of the function) -/
+inductive Res (α : Type) where
+  | ok : α → Res α
+  | panic : String → Res α
+
+/-- `f(x[:k])` where `f` writes its argument: the callee's result `w` (the new contents of the `k`-element window)
+    replaces the first `k` elements of `x` (requires `k ≤ len x`, see the caller's `_pre` / guards) -/
+def spliceLo {α : Type} (x : List α) (k : Nat) (w : List α) : List α := w ++ x.drop k
 
 end SMGo.Model.GoSM4
